@@ -16,7 +16,9 @@ def famXform (kv : KV) : String × String :=
     let roots := parseRoots (KV.getD kv "roots" "nil")
     let blocks := parseBlocks (KV.getD kv "blocks" "-")
     let recs := (withOffsets (headerSize ⟨roots, 1⟩) blocks).filter fun r => o.storeIdentity || !r.cid.isIdentity
-    let s := match Index.load codec recs with
+    -- an indexed CID above MaxIndexCidSize is refused; one that is not indexed (identity, by default) is not
+    let s := if recs.any fun r => r.cid.byteLen > o.maxIndexCidSize then "r=cidtoolarge"
+      else match Index.load codec recs with
       | some ix => s!"r=ok out={hexOr (layoutV2 0 0 input true false ix.bytes)}"
       | none => "r=!ok"
     (m, s)
